@@ -81,7 +81,7 @@ CLAIMED = {
         "DESIGN.md §6 C10",
     ),
     "C11": (
-        "runtime monitor: chain b0 -> PL1 -> b1 -> PL2 -> b2 through the real converters; b2 == b1 byte for byte, PL2 == PL1, no warnings after step one, and File(b0) equivalent to File(b1) both through the crate's public fields and through our own independent TFM reader (exact lig/kern map over every pair and both boundaries, canonical form of b1), plus CompiledProgram::run on characters, pairs and sampled words",
+        "runtime monitor: chain b0 -> PL1 -> b1 -> PL2 -> b2 through the real converters; b2 == b1 byte for byte, PL2 == PL1, no warnings after step one, and File(b0) equivalent to File(b1) both through the crate's public fields and through our own independent TFM reader (exact lig/kern map over every pair and both boundaries, canonical form of b1), plus CompiledProgram::run on characters, pairs and sampled words; libFuzzer stage (thorough tier) whose inputs are decided by the same oracle",
         "Held on the executions produced: all 94 corpus fonts and clean corpus PLs, 1e4 / 3e5 generated fonts (0-256 characters, 15/15/63 limits, several labels per chain, SKIPs, entry points above 255, boundary characters, NEXTLARGER, VARCHAR) and 6e3 / 1.5e5 meaning-preserving repackings.",
         "Our TFM reader is calibrated against Knuth's recorded TFtoPL output for 29 corpus pairs; generated PLs that warn in the first step are outside the quantifier (skipped, counted); lossy compression is excluded by construction (C17's subject).",
         "DESIGN.md §6 C11",
